@@ -113,8 +113,8 @@ Proof.
     unfold OverlapSpec.exf in Hb. rewrite Hb. simpl.
     destruct (has_sub a && has_sub b) eqn:E; [|reflexivity].
     apply andb_true_iff in E.
-    specialize (Isub (fl || excl S a b) (sub_pt a, fe_sub a) (sub_pt b, fe_sub b) st (Hs E)).
-    destruct (Overlap.subsets S D memo f (fl || excl S a b) (sub_pt a, fe_sub a) (sub_pt b, fe_sub b) st) as [cs st'].
+    specialize (Isub (fl || excl S a b) (sub_pt a, fe_sub a) (sub_pt b, fe_sub b) (inc_fc st) (Hs E)).
+    destruct (Overlap.subsets S D memo f (fl || excl S a b) (sub_pt a, fe_sub a) (sub_pt b, fe_sub b) (inc_fc st)) as [cs st'].
     simpl in Isub. subst cs. reflexivity.
   - (* between *) intros fl l1 l2 st H. simpl.
     apply seq_nil. intros k st1 _. apply seq_nil. intros a st2 Ha. apply seq_nil. intros b st3 Hb.
